@@ -277,6 +277,15 @@ def nodeStep (st : NSt) (t : List String) (implObs : String) : Option (NSt × St
     match i.toNat?, j.toNat? with
     | some a, some b => some ({ st with queue := st.queue.filter (fun (s, d, _) => !(s = portAddr a && d = portAddr b)) }, "ok", "-")
     | _, _ => some (st, "bad-op", "-")
+  | "nforge" :: to :: src :: _ =>
+    -- a datagram sealed under a key of an outsider's choice; its bytes are taken from the implementation's report, to the ideal AEAD it is garbage
+    let toks := implObs.splitOn " "
+    match to.toNat?, parseNAddr src, (toks.head?.bind (fun t => if t.startsWith "forged=" then Bytes.ofHex (t.drop 7).toString else none)) with
+    | some port, some s, some d =>
+      let rest := " ".intercalate (toks.drop 1)
+      let (s', obs) := deliverTo st s (portAddr port) d rest
+      some (s', s!"forged={Bytes.toHex d} {obs}", "-")
+    | _, _, _ => some (st, "bad-op", "-")
   | "nreplay-last" :: rest =>
     if st.wire.isEmpty then some (st, "none-on-wire", "-")
     else nodeStepReplay st (s!"w{st.wire.length - 1}" :: rest) implObs
